@@ -101,6 +101,11 @@ type Reply struct {
 	Status string `json:"status,omitempty"`
 }
 
+// DoTagged serves one request whose storage calls are logged under the tag (see Storage.LogFor)
+func (e *Env) DoTagged(r *http.Request, tag string) *Reply {
+	return e.Do(r.WithContext(WithTag(r.Context(), tag)))
+}
+
 // Do serves one request, recovering panics.
 func (e *Env) Do(r *http.Request) (rep *Reply) {
 	rec := httptest.NewRecorder()
